@@ -74,7 +74,11 @@ def judge(job):
             for a in aliases:
                 sign = -1 if a.startswith("-") else 1
                 name = a[1:] if sign < 0 else a
-                recs.append(("alias %s = %s%s" % (name, "-" if sign < 0 else "", canonical), {name: Fraction(1), canonical: Fraction(-sign)}, "alias-negative" if sign < 0 else "alias-positive"))
+                row = {name: Fraction(1), canonical: Fraction(-sign)}
+                for nm in (name, canonical):  # an alias of a parameter / constant: that one is fixed at its value
+                    if nm in S.PVAL:
+                        row[1] = row.get(1, 0) + row.pop(nm) * S.PVAL[nm]
+                recs.append(("alias %s = %s%s" % (name, "-" if sign < 0 else "", canonical), row, "alias-negative" if sign < 0 else "alias-positive"))
     except Exception as e:  # noqa: BLE001
         viol("alias-relation-unreadable", "iterating alias_relation raises %r" % e)
         return res
@@ -132,24 +136,13 @@ def judge(job):
 
 
 def plan(tier):
-    specs = S.specs(tier)
-    near = S.option_sets(1)
-    wide = S.option_sets(2)
+    table = S.option_set_table()
+    pl = S.plan(tier)
     jobs = []
-    for sp in specs:
-        nspecial = sum(1 for f in sp.forms if f != "base")
-        ident = sp.perm in (tuple(range(sp.n + 1)), tuple(reversed(range(sp.n + 1))))
-        if tier == "thorough":
-            sets = wide if (nspecial >= 2 and ident) else near
-        else:
-            sets = wide if (nspecial == sp.n and sp.perm == tuple(range(sp.n + 1))) else near
-        for on, eve in sets:
+    for sp, name in pl:
+        for on, eve in table[name]:
             jobs.append((sp.key(), on, eve))
-    return specs, jobs
-
-
-def _key(j):
-    return (tuple(j[0][0]), tuple(j[0][1]), j[0][2], tuple(j[0][3])), j[1], j[2]
+    return [sp for sp, _ in pl], jobs
 
 
 def run_with(ctx, judge_fn, rule_tail):
@@ -176,17 +169,18 @@ def run_with(ctx, judge_fn, rule_tail):
             "evaluations": len(jobs),
             "distinct_nontrivial": nontrivial,
             "models": len(specs),
-            "option_sets_distance_1": len(S.option_sets(1)),
-            "option_sets_distance_2": len(S.option_sets(2)),
+            "option_sets": {k: len(v) for k, v in S.option_set_table().items()},
             "outcomes": outcomes,
             "exhaustive": True,
-            "rule": "models: one state, one input, n = 3 (thorough 4) algebraic unknowns each defined from an earlier quantity by one of "
-            "%d forms; complete for <= 1 special form (every position x form x 4 dependency patterns x 2 state equations, every "
-            "permutation of the equation list for the chain pattern -- thorough: for all), for 2 special forms (every pair of positions x "
-            "pair of forms, chain and star dependencies, identity + reversed order -- thorough: all rotations too) and for full-length "
-            "chains over 6 core alias / constant / factor forms; option sets: every set of the 13 simplification switches and "
-            "eliminable_variable_expression within Hamming distance 1 of the default and of all-on (distance 2 on the full-length "
-            "chains in source order; thorough: on every model with >= 2 special forms in source or reversed order). " % len(S.FORMS) + rule_tail,
+            "rule": "models: one state, one input, n = 3 (thorough 4) algebraic unknowns, each defined from an earlier quantity by one of "
+            "%d forms. (A) <= 1 special form: every position x form x 4 dependency patterns x 2 state equations; every permutation of "
+            "the equation list for the chain pattern (thorough: chain and star), source and reversed order otherwise. (B) 2 special "
+            "forms: every pair of positions x every pair of forms, chain dependencies in source order (thorough: chain and star, all "
+            "rotations and the reversed order). (C) every full-length chain over 6 core alias / constant / factor forms in source and "
+            "reversed order (thorough: rotations too). Option sets: 'near' = every set of the 13 simplification switches and "
+            "eliminable_variable_expression within Hamming distance 1 of the default and of all-on, on (A) in source order, on (B) for "
+            "pairs of 6 core forms, (thorough) on (C) in source order; 'wide' = distance 2, thorough only, on (B) core pairs in source / "
+            "reversed order; 'core' = 9 named sets (default, each eliminating pass alone, all-on and its neighbours) on everything else. " % len(S.FORMS) + rule_tail,
         }
     )
 
